@@ -166,17 +166,67 @@ theorem suite_fail_prints_FAIL_and_nonzero (cfg : Cfg) (hs : CfgSound cfg = true
     Line.fail ∈ (run cfg (.fns pkg sl)).1 ∧ (run cfg (.fns pkg sl)).2 ≠ 0 :=
   (((guarded_statement_iff_sound cfg).2 hs) pkg.initOut (resolved pkg sl) hg).2 hn
 
+/-! ## the package as written: which comment is the declaration -/
+
+/-- both sentences for packages as written (contract = the declarations as written, `declSpec`) -/
+def SrcGuardedStatement (cfg : Cfg) (markerAnywhere : Bool) : Prop :=
+  ∀ (pkg : Pkg) (l : List SrcFn), (∀ f ∈ contractFns pkg l, f.selected = true → Guarded f = true) →
+    (((Line.ok ∈ (runSrc cfg markerAnywhere pkg l).1 ∧ (runSrc cfg markerAnywhere pkg l).2 = 0) ↔
+        allMeet (contractFns pkg l)) ∧
+     (¬ allMeet (contractFns pkg l) →
+        (Line.fail ∈ (runSrc cfg markerAnywhere pkg l).1 ∧ (runSrc cfg markerAnywhere pkg l).2 ≠ 0)))
+
+/-- the loader finds the declaration as written when it scans every comment of a group -/
+theorem loaderDecl_eq_spec (gs : List Group) : loaderDecl true gs = declSpec gs := rfl
+
+theorem src_guarded_statement_of_sound (cfg : Cfg) (hs : CfgSound cfg = true) : SrcGuardedStatement cfg true := by
+  intro pkg l hg
+  exact (guarded_statement_iff_sound cfg).2 hs pkg.initOut (contractFns pkg l) hg
+
+/-- `// note` / `// Output:` / `// y` in one group, the test prints `x` -/
+def witnessMarkerSecond : List SrcFn :=
+  [⟨⟨['T', 'e', 's', 't', 'M'], false, true, .none, 0, false, ['x'], .returns⟩,
+    [[.line [' ', 'n', 'o', 't', 'e'], .line markerOut, .line [' ', 'y']]]⟩]
+
+example : declSpec [[.line [' ', 'n', 'o', 't', 'e'], .line markerOut, .line [' ', 'y']]] = .output ['y'] := by decide
+example : loaderDecl false [[.line [' ', 'n', 'o', 't', 'e'], .line markerOut, .line [' ', 'y']]] = .none := by decide
+
+/-- if the scan looks only at the first comment of each group, a declaration that is not the first
+line of its group is dropped: the mismatching test is reported `ok` -/
+theorem marker_first_only_passes_mismatch (cfg : Cfg) :
+    runSrc cfg false ⟨[], 0⟩ witnessMarkerSecond = ([.ok], 0) ∧ ¬ allMeet (contractFns ⟨[], 0⟩ witnessMarkerSecond) := by
+  obtain ⟨a, b, c⟩ := cfg
+  cases a <;> cases b <;> cases c <;> decide
+
+theorem marker_first_only_breaks (cfg : Cfg) : ¬ SrcGuardedStatement cfg false := by
+  intro h
+  have hw := marker_first_only_passes_mismatch cfg
+  have := (h ⟨[], 0⟩ witnessMarkerSecond (by decide)).1.1 (by rw [hw.1]; decide)
+  exact hw.2 this
+
+/-- scanning the whole group, the same package FAILs as it should (sound table) -/
+theorem marker_anywhere_reports_mismatch :
+    (runSrc cfgRepaired true ⟨[], 0⟩ witnessMarkerSecond).2 = 1 ∧
+    Line.fail ∈ (runSrc cfgRepaired true ⟨[], 0⟩ witnessMarkerSecond).1 := by decide
+
 /-! ## the table regenerated from the current source -/
 
-theorem cfgCurrent_sound_checked : CfgSound cfgCurrent = cfgCurrentSound := by decide
+theorem cfgCurrent_sound_checked : (CfgSound cfgCurrent && markerAnywhereCurrent) = cfgCurrentSound := by decide
 
 theorem current_verdict :
-    (cfgCurrentSound = true → GuardedStatement cfgCurrent) ∧
-    (cfgCurrentSound = false → ¬ GuardedStatement cfgCurrent) := by
-  rw [← cfgCurrent_sound_checked, guarded_statement_iff_sound]
+    (cfgCurrentSound = true → GuardedStatement cfgCurrent ∧ SrcGuardedStatement cfgCurrent markerAnywhereCurrent) ∧
+    (cfgCurrentSound = false → ¬ (GuardedStatement cfgCurrent ∧ SrcGuardedStatement cfgCurrent markerAnywhereCurrent)) := by
+  rw [← cfgCurrent_sound_checked]
   constructor
-  · intro h; exact h
-  · intro h h'; simp [h'] at h
+  · intro h
+    simp at h
+    refine ⟨(guarded_statement_iff_sound _).2 h.1, ?_⟩
+    rw [h.2]; exact src_guarded_statement_of_sound _ h.1
+  · intro h ⟨h1, h2⟩
+    have hs := (guarded_statement_iff_sound _).1 h1
+    cases hm : markerAnywhereCurrent
+    · rw [hm] at h2; exact marker_first_only_breaks _ h2
+    · simp [hs, hm] at h
 
 /-! ## what does not hold: witnesses -/
 
